@@ -4,6 +4,7 @@ affine arithmetic on natural numbers modulo p.  Core Lean only; executable (slow
 every point addition performs a modular inversion).
 -/
 import Gmsm.Spec.SM3
+import Gmsm.Util.I2osp
 namespace Spec.SM2
 open Gmsm
 
@@ -72,7 +73,7 @@ def enc : Pt → Nat × Nat
 
 def dec (x y : Nat) : Pt := if x = 0 ∧ y = 0 then none else some (x, y)
 
-def b32 (v : Nat) : Bytes := i2osp 32 v
+def b32 (v : Nat) : Bytes := i2ospR 32 v
 
 -- GM/T 0003.2 signatures --------------------------------------------------------------------------------
 
@@ -80,7 +81,7 @@ def defaultUid : Bytes := [0x31,0x32,0x33,0x34,0x35,0x36,0x37,0x38,0x31,0x32,0x3
 
 /-- Z_A = H256(ENTL_A ‖ ID_A ‖ a ‖ b ‖ xG ‖ yG ‖ xA ‖ yA) -/
 def za (uid : Bytes) (px py : Nat) : Bytes :=
-  Spec.SM3.hash (i2osp 2 (8 * uid.length) ++ uid ++ b32 a ++ b32 b ++ b32 gx ++ b32 gy ++ b32 px ++ b32 py)
+  Spec.SM3.hash (i2ospR 2 (8 * uid.length) ++ uid ++ b32 a ++ b32 b ++ b32 gx ++ b32 gy ++ b32 px ++ b32 py)
 
 /-- e = Hv(Z_A ‖ M) as an integer -/
 def msgE (uid : Bytes) (px py : Nat) (msg : Bytes) : Nat := os2ip (Spec.SM3.hash (za uid px py ++ msg))
@@ -110,7 +111,7 @@ def verify (px py : Nat) (uid msg : Bytes) (r s : Nat) : Bool := verifyE px py (
 
 /-- KDF(Z, klen bytes): SM3(Z ‖ ct) for ct = 1, 2, … truncated to klen bytes -/
 def kdf (z : Bytes) (klen : Nat) : Bytes :=
-  ((List.range ((klen + 31) / 32)).flatMap fun i => Spec.SM3.hash (z ++ i2osp 4 (i + 1))).take klen
+  ((List.range ((klen + 31) / 32)).flatMap fun i => Spec.SM3.hash (z ++ i2ospR 4 (i + 1))).take klen
 
 inductive Order | c1c3c2 | c1c2c3
 deriving DecidableEq, Repr
@@ -128,25 +129,33 @@ def encryptWith (px py : Nat) (msg : Bytes) (k : Nat) (ord : Order) : Option Byt
     | .c1c3c2 => some (0x04 :: (b32 x1 ++ b32 y1 ++ c3 ++ c2))
     | .c1c2c3 => some (0x04 :: (b32 x1 ++ b32 y1 ++ c2 ++ c3))
 
+/-- split a raw ciphertext 04 ‖ x1 ‖ y1 ‖ (C3 ‖ C2 | C2 ‖ C3) into (x1, y1, C3, C2) -/
+def parseCt (ct : Bytes) (ord : Order) : Nat × Nat × Bytes × Bytes :=
+  let body := ct.drop 1
+  let x1 := os2ip (body.take 32)
+  let y1 := os2ip ((body.drop 32).take 32)
+  let rest := body.drop 64
+  match ord with
+  | .c1c3c2 => (x1, y1, rest.take 32, rest.drop 32)
+  | .c1c2c3 => (x1, y1, rest.drop (rest.length - 32), rest.take (rest.length - 32))
+
+/-- steps B1–B6 on the parsed components: `none` = error -/
+def decryptParsed (d x1 y1 : Nat) (c3 c2 : Bytes) : Option Bytes :=
+  if !onCurve (x1 % p) (y1 % p) then none
+  else
+    let sh := enc (smul d (dec (x1 % p) (y1 % p)))
+    let t := kdf (b32 sh.1 ++ b32 sh.2) c2.length
+    if t.all (· == 0) then none
+    else
+      let m := xorBytes c2 t
+      if Spec.SM3.hash (b32 sh.1 ++ m ++ b32 sh.2) = c3 then some m else none
+
 /-- decryption (§7.1): `none` = error -/
 def decrypt (d : Nat) (ct : Bytes) (ord : Order) : Option Bytes :=
   if ct.length < 97 then none
   else
-    let body := ct.drop 1
-    let x1 := os2ip (body.take 32)
-    let y1 := os2ip ((body.drop 32).take 32)
-    let rest := body.drop 64
-    let (c3, c2) := match ord with
-      | .c1c3c2 => (rest.take 32, rest.drop 32)
-      | .c1c2c3 => (rest.drop (rest.length - 32), rest.take (rest.length - 32))
-    if !onCurve (x1 % p) (y1 % p) then none
-    else
-      let (x2, y2) := enc (smul d (dec (x1 % p) (y1 % p)))
-      let t := kdf (b32 x2 ++ b32 y2) c2.length
-      if t.all (· == 0) then none
-      else
-        let m := xorBytes c2 t
-        if Spec.SM3.hash (b32 x2 ++ m ++ b32 y2) = c3 then some m else none
+    let (x1, y1, c3, c2) := parseCt ct ord
+    decryptParsed d x1 y1 c3 c2
 
 -- key exchange (GM/T 0003.3), w = 127, h = 1 ----------------------------------------------------------------
 
